@@ -66,3 +66,10 @@ Theorem C06_fact_gets_impulse_rule : forall prog pd names,
   In id_Impulse (fact_rules prog pd names).
 Proof. exact fact_rules_impulse. Qed.
 Print Assumptions C06_fact_gets_impulse_rule.
+
+(* facts of plain predicates extending both Impulse and Interval get both rules (the Agent corner case above does not apply) *)
+Theorem C06_plain_fact_gets_both_rules : forall prog pd names,
+  owner_kind_of prog pd = OwnPlain -> In id_Impulse names -> In id_Interval names ->
+  fact_rules prog pd names = (id_Impulse :: id_Interval :: nil)%list.
+Proof. exact fact_rules_plain_both. Qed.
+Print Assumptions C06_plain_fact_gets_both_rules.
